@@ -193,14 +193,17 @@ func (ts topicShare) of(master []string) []string {
 }
 
 type c08State struct {
-	share topicShare
-	r     *fw.Run
-	key   string
-	rp    *sse.FiniteReplayer
-	m     *rpModel
-	hist  *c08Hist
-	ntok  int
-	shape map[string]struct{}
+	lastMsg    *sse.Message
+	lastTok    string
+	lastTopics []string
+	share      topicShare
+	r          *fw.Run
+	key        string
+	rp         *sse.FiniteReplayer
+	m          *rpModel
+	hist       *c08Hist
+	ntok       int
+	shape      map[string]struct{}
 }
 
 func (s *c08State) viol(tags []string, format string, a ...any) {
@@ -292,6 +295,7 @@ func (s *c08State) put(topics []string, mode string) {
 		s.m.NextID++
 	}
 	s.m.Entries = append(s.m.Entries, rpEntry{ID: got.ID.String(), Token: tok, Topics: topics})
+	s.lastMsg, s.lastTok, s.lastTopics = msg, tok, topics
 	if s.m.Cap <= 64 {
 		sh := mon.ProbeShape(s.rp)
 		if sh.OK {
@@ -301,7 +305,36 @@ func (s *c08State) put(topics []string, mode string) {
 }
 
 // replay presents id (class is only descriptive) and checks the outcome.
+// putAgain puts the very message object of the previous valid Put once more (manual IDs: a prepared
+// message published twice is two buffered events that carry the same ID).
+func (s *c08State) putAgain() {
+	if s.m.Auto || s.lastMsg == nil {
+		return
+	}
+	s.hist.Ops = append(s.hist.Ops, fmt.Sprintf("Put(the same *Message as before: %s, topics=%v)", s.lastTok, s.lastTopics))
+	got, err := s.rp.Put(s.lastMsg, s.share.of(s.lastTopics))
+	s.r.Count("puts", 1)
+	s.r.Count("puts_of_the_same_object", 1)
+	if err != nil || got == nil {
+		s.viol([]string{"valid_put_rejected"}, "putting the same message object a second time returned (%v, %v)", got, err)
+		return
+	}
+	s.m.Entries = append(s.m.Entries, rpEntry{ID: got.ID.String(), Token: s.lastTok, Topics: s.lastTopics})
+}
+
 func (s *c08State) replay(class string, id sse.EventID, subTopics []string, failSend int, failFlush int) {
+	if id.IsSet() {
+		// which of several events sharing one ID a presented ID means is not defined: not presented
+		n := 0
+		for _, e := range s.m.Entries {
+			if e.ID == id.String() {
+				n++
+			}
+		}
+		if n > 1 {
+			return
+		}
+	}
 	lo := s.m.windowFinite()
 	idx := -1
 	if id.IsSet() {
@@ -549,6 +582,9 @@ func TestC08(t *testing.T) {
 					s.put(topicSetsX[rng.IntN(len(topicSetsX))], "valid")
 				}
 				sig.WriteByte('P')
+			case x == 5 && rng.IntN(2) == 0:
+				s.putAgain()
+				sig.WriteByte('A')
 			case x == 5:
 				s.put(topicSetsX[rng.IntN(len(topicSetsX))], []string{"wrong_id_mode", "no_topics", "empty_topics"}[rng.IntN(3)])
 				sig.WriteByte('X')
